@@ -117,10 +117,11 @@ impl StateMachine<'_> {
 
     #[inline]
     fn test_diff_header_plus_line(&self) -> bool {
-        (matches!(self.state, State::DiffHeader(_)) || self.source == Source::DiffUnified)
-            && (self.line.starts_with("+++ ")
-                || self.line.starts_with("rename to ")
-                || self.line.starts_with("copy to "))
+        // The `+++ ` line directly follows the `--- ` line (which sets the state): elsewhere a
+        // line starting with `+++ ` is an added line whose text starts with `++ `.
+        (matches!(self.state, State::DiffHeader(_)) && self.line.starts_with("+++ "))
+            || ((matches!(self.state, State::DiffHeader(_)) || self.source == Source::DiffUnified)
+                && (self.line.starts_with("rename to ") || self.line.starts_with("copy to ")))
     }
 
     /// Check for and handle the "+++ filename ..." line.
